@@ -137,3 +137,36 @@ def _(vc):
         a, b = S.den_param(vc, obs, env), S.den_param(vc, vc.attr(out, "observation"), env)
         S.shape_eq(vc, b, [1])
         vc.ensure("same_observation", b.elem([0]) == a.elem([0]))
+
+
+# ------------------------------------------------------------------------------------------------ copies of parameter nodes (Parameter.ref copies every non-tensor node)
+from contracts.C14_shapes import RULES as _NODE_RULES
+from engine.values import is_z3 as _is_z3
+
+for _cls, _mk in _NODE_RULES.items():
+    def _h(vc, _cls=_cls, _mk=_mk):
+        """ParameterNode.__copy__ rebuilds the node from `config`: the copy must hold every scalar / shape hyper-parameter of the original (axis, shapes,
+        bounds, index lists, order ...): a hyper-parameter missing from config would silently fall back to the constructor's default in every derived circuit"""
+        p, _ = _mk(vc, _cls)
+        c = vc.call((p, "__copy__"))
+        ok = isinstance(c, Obj) and c.cls is p.cls and c is not p
+        vc.ensure("copy_is_a_new_node_of_the_same_class", ok)
+        if not ok:
+            return
+
+        def same(a, b):
+            if isinstance(a, (tuple, list)) and isinstance(b, (tuple, list)):
+                return len(a) == len(b) and all(same(x, y) for x, y in zip(a, b))
+            if a is None or b is None:
+                return a is None and b is None
+            if isinstance(a, (bool, int, float)) or _is_z3(a):
+                return vc.must(vc.eq(a, b)) if (_is_z3(a) or _is_z3(b)) else a == b
+            from engine.values import SymSeq as _SS
+            if isinstance(a, _SS) or isinstance(b, _SS):
+                return vc.must(vc.eq(a, b))
+            return True                      # other objects (initialisers, dtypes) are compared by the dedicated obligations
+        for fname, fval in p.fields.items():
+            if isinstance(fval, (bool, int, float, tuple, list)) or _is_z3(fval) or fval is None or type(fval).__name__ == "SymSeq":
+                vc.ensure(f"same_attribute.{fname}", fname in c.fields and same(fval, c.fields[fname]))
+        vc.ensure("same_shape", vc.eq(vc.attr(p, "shape"), vc.attr(c, "shape")))
+    obligation(f"C10.ParameterNode.copy.{_cls}", "C10", [f"{SP}:ParameterNode.__copy__"])(_h)
